@@ -241,8 +241,10 @@ class Delete(AbstractCommand):
     def can_execute(self):
         self.feature = self.owner.eContainmentFeature()
         self.references = {}
-        elements = {self.owner}
-        elements.update(self.owner.eAllContents())
+        # parents before their children: undo then refills a containment
+        # collection in its recorded order before a child is re-attached
+        elements = [self.owner]
+        elements.extend(self.owner.eAllContents())
         for element in elements:
             # a collection is copied: delete() empties the live one
             rels_tuple = [(ref, list(element.eGet(ref)) if ref.many
